@@ -8,7 +8,7 @@ force = set(sys.argv[1:])
 results = {}
 if os.path.exists("/tmp/seed/results.txt"):
     for l in open("/tmp/seed/results.txt"):
-        m = re.match(r"/tmp/seed/(C\d+)/out/(\d) :: (.*?) :: (\d+) violations :: (.*)", l.strip())
+        m = re.match(r"/tmp/seed/(C\d+)/out/(\d) :: (.*?) :: (\d+) violations ::\s*(.*)", l.strip())
         if m:
             results["%s-%s" % (m.group(1), m.group(2))] = {"runs": m.group(3).strip(), "violations": int(m.group(4)), "signatures": m.group(5).split()}
 head = subprocess.run(["git", "-C", "/repo", "rev-parse", "--short", "HEAD"], capture_output=True, text=True).stdout.strip()
